@@ -278,16 +278,19 @@ func (w *world) writeProg(p, v int) {
 	}
 }
 
+// gauge reads the exported value of program p's gauge without creating anything (Metric.GetDatum would
+// allocate the datum and so change what a later Store.Add hands over): -1 no such metric, 0 no datum yet.
 func (w *world) gauge(p int) int64 {
 	m := w.store.FindMetricOrNil("g"+strconv.Itoa(p), progName(p))
 	if m == nil {
 		return -1
 	}
-	d, err := m.GetDatum()
-	if err != nil {
-		return -2
+	m.RLock()
+	defer m.RUnlock()
+	if len(m.LabelValues) == 0 {
+		return 0
 	}
-	return datum.GetInt(d)
+	return datum.GetInt(m.LabelValues[0].Value)
 }
 
 // await consumes the notifications caused by one action: exactly `exp`, each
